@@ -51,6 +51,12 @@ STAGE2_BUDGET_MS = int(os.environ.get("VERIF_STAGE2_BUDGET_MS", "25000"))
 
 
 def _record(ob: Obligation, verdict, model, stats, want_smt2=False) -> Dict:
+    if (ob.meta or {}).get("cover"):
+        # a cover is *good* when False is NOT derivable
+        rec = {"name": ob.name, "path": ob.path, "props": list(ob.props), "kind": "cover",
+               "verdict": "vacuous" if verdict == "unsat" else "reachable", "ms": stats.get("ms", 0), "hyps": len(ob.hyps),
+               "instances": stats.get("instances", 0), "backend": stats.get("backend", ""), "meta": {}}
+        return rec
     rec = {
         "name": ob.name,
         "path": ob.path,
@@ -90,7 +96,7 @@ def discharge_batch(obls: List[Obligation], idxs: List[int], want_smt2: bool = F
             continue
         verdict, model, stats = quant.check(ob.hyps, ob.goal, TIMEOUT_MS, allow_stage2=False)
         out[i] = _record(ob, verdict, model, stats, want_smt2)
-        if verdict == "unknown":
+        if verdict == "unknown" and not (ob.meta or {}).get("cover"):
             todo.append(i)
     todo.sort(key=lambda i: (len(obls[i].hyps), i))
     spent = 0
@@ -187,17 +193,23 @@ def run_unit(unit: Unit, repo_root: Optional[str] = None, mutate: Optional[Calla
     return res
 
 
+_UNITS: List[Unit] = []
+
+
 def _worker(args):
-    unit, repo_root = args
-    return run_unit(unit, repo_root)
+    idx, repo_root = args
+    return run_unit(_UNITS[idx], repo_root)
 
 
 def run_units(units: List[Unit], repo_root: Optional[str] = None, jobs: int = 0) -> List[Dict]:
+    """units are looked up by index in the forked children (they hold closures and are not picklable)"""
     import multiprocessing as mp
 
+    global _UNITS
     jobs = jobs or min(len(units), os.cpu_count() or 4, 16)
     if jobs <= 1 or len(units) <= 1:
         return [run_unit(u, repo_root) for u in units]
+    _UNITS = list(units)
     ctx = mp.get_context("fork")
     with ctx.Pool(jobs) as pool:
-        return pool.map(_worker, [(u, repo_root) for u in units], chunksize=1)
+        return pool.map(_worker, [(i, repo_root) for i in range(len(units))], chunksize=1)
